@@ -465,7 +465,8 @@ func c09R5(p *core.Prog, r *core.Report) {
 	}
 	name := p.FuncName(fn)
 	found := false
-	for _, fs := range fieldStores([]*ssa.Function{fn}, func(n *types.Named, f string) bool { return f == "RepoTags" }) {
+	// (the body of the export may live in an unexported helper of the package)
+	for _, fs := range fieldStores(sortedFuncs(core.Helpers(fn, 2)), func(n *types.Named, f string) bool { return f == "RepoTags" }) {
 		found = true
 		ok := true
 		n := 0
@@ -478,7 +479,7 @@ func c09R5(p *core.Prog, r *core.Report) {
 						continue
 					}
 					n++
-					if !core.AllOrigins(core.Origins(core.CallArg(cn, 0), core.SliceOpts{}), func(o core.Origin) bool {
+					if !core.AllOrigins(core.Origins(core.CallArg(cn, 0), core.SliceOpts{Helpers: core.Helpers(fn, 2)}), func(o core.Origin) bool {
 						return o.Kind == core.OCall && o.Callee() != nil && core.IsModMethod(o.Callee(), "types/ref", "Ref", "SetTag")
 					}) {
 						ok = false
@@ -1031,6 +1032,60 @@ func c09R13(p *core.Prog, r *core.Report) {
 			}
 		})
 	}
+	// closers also look into the literals of the helper (a deferred close of a second writer)
+	for _, h := range fns {
+		if h.Parent() == nil || closers[h] {
+			continue
+		}
+		root := h
+		for root.Parent() != nil {
+			root = root.Parent()
+		}
+		core.Calls(h, func(c ssa.CallInstruction) {
+			if isWriterClose(c) && usedResult(c) && root.Signature.Results().Len() > 0 {
+				closers[root] = true
+			}
+		})
+	}
+	// helpers that close what they are given and store the result through an error pointer
+	// (`defer closeKeepErr(w, &err)`)
+	ptrClosers := map[*ssa.Function]bool{}
+	for _, h := range fns {
+		if h.Parent() != nil || len(h.Blocks) == 0 {
+			continue
+		}
+		closes, stores := false, false
+		core.Calls(h, func(c ssa.CallInstruction) {
+			cal := core.Callee(c)
+			isClose := (c.Common().IsInvoke() && c.Common().Method.Name() == "Close") || (cal != nil && cal.Name() == "Close")
+			if !isClose || !usedResult(c) {
+				return
+			}
+			recv := c.Common().Value
+			if !c.Common().IsInvoke() {
+				recv = core.CallArg(c, 0)
+			}
+			for _, o := range core.Origins(recv, core.SliceOpts{}) {
+				if o.Kind == core.OParam {
+					closes = true
+				}
+			}
+		})
+		for _, b := range h.Blocks {
+			for _, in := range b.Instrs {
+				if st, ok := in.(*ssa.Store); ok {
+					if pr, ok := st.Addr.(*ssa.Parameter); ok {
+						if pt, ok := pr.Type().Underlying().(*types.Pointer); ok && isErr(pt.Elem()) {
+							stores = true
+						}
+					}
+				}
+			}
+		}
+		if closes && stores {
+			ptrClosers[h] = true
+		}
+	}
 	lab := labeler{}
 	for _, fn := range fns {
 		if fn.Parent() != nil || len(fn.Blocks) == 0 {
@@ -1070,22 +1125,97 @@ func c09R13(p *core.Prog, r *core.Report) {
 				}
 				return false
 			}
+			// the writer is kept in a field of a struct that is handed to a closing helper
+			// the struct allocation(s) a value points to, through captured variables and local cells
+			allocsOf := func(v ssa.Value) map[*ssa.Alloc]bool {
+				out := map[*ssa.Alloc]bool{}
+				seenA := map[ssa.Value]bool{}
+				var resolve func(x ssa.Value, d int)
+				resolve = func(x ssa.Value, d int) {
+					if x == nil || d > 8 || seenA[x] {
+						return
+					}
+					seenA[x] = true
+					switch y := x.(type) {
+					case *ssa.Alloc:
+						if _, isStruct := y.Type().(*types.Pointer).Elem().Underlying().(*types.Struct); isStruct {
+							out[y] = true
+							return
+						}
+						for _, st := range core.StoresToCell(y) {
+							resolve(st.Val, d+1)
+						}
+					case *ssa.FreeVar:
+						resolve(core.FreeVarBinding(y), d+1)
+					case *ssa.UnOp:
+						resolve(y.X, d+1)
+					case *ssa.Phi:
+						for _, e := range y.Edges {
+							resolve(e, d+1)
+						}
+					}
+				}
+				resolve(v, 0)
+				return out
+			}
+			holdsW := func(v ssa.Value) bool {
+				mine := allocsOf(v)
+				if len(mine) == 0 {
+					return false
+				}
+				for _, g := range unit {
+					for _, b := range g.Blocks {
+						for _, in := range b.Instrs {
+							st, ok := in.(*ssa.Store)
+							if !ok || !fromW(st.Val) {
+								continue
+							}
+							fa, ok := st.Addr.(*ssa.FieldAddr)
+							if !ok {
+								continue
+							}
+							for al := range allocsOf(fa.X) {
+								if mine[al] {
+									return true
+								}
+							}
+						}
+					}
+				}
+				return false
+			}
 			var explicit []ssa.Instruction // used Close calls in the creating function
 			deferredHeard, closedAtAll := false, false
 			for _, g := range unit {
 				core.Calls(g, func(c ssa.CallInstruction) {
 					var recv ssa.Value
+					viaHolder := false
 					switch {
 					case isWriterClose(c):
 						recv = core.CallArg(c, 0)
 					case closers[core.CalleeFn(c)]:
 						for i := range c.Common().Args {
-							if a := core.CallArg(c, i); a != nil && fromW(a) {
+							if a := core.CallArg(c, i); a != nil && (fromW(a) || holdsW(a)) {
 								recv = a
+								viaHolder = !fromW(a)
 							}
 						}
+					case ptrClosers[core.CalleeFn(c)]:
+						hasW, hasCell := false, false
+						for _, a := range c.Common().Args {
+							if fromW(underIface(a)) {
+								hasW = true
+							}
+							if al, ok := a.(*ssa.Alloc); ok && cells[al] {
+								hasCell = true
+							}
+						}
+						if hasW && hasCell {
+							closedAtAll, deferredHeard = true, true
+						}
+						return
 					}
-					if recv == nil || !fromW(recv) {
+					if recv == nil || !(fromW(recv) || viaHolder) {
 						return
 					}
 					closedAtAll = true
